@@ -41,6 +41,21 @@ func FmtDiffs(input string) ([]FmtDiff, error) {
 		lines: strings.Split(input, "\n"),
 	}
 
+	// Fragments which share a source line (e.g. `} // comment`) are replaced
+	// together, so that the edits never overlap.
+	merged := make([]FmtDiff, 0, len(all))
+	for _, diff := range all {
+		if last := len(merged) - 1; last >= 0 && diff.FromLine < merged[last].ToLine {
+			merged[last].NewText += diff.NewText
+			if diff.ToLine > merged[last].ToLine {
+				merged[last].ToLine = diff.ToLine
+			}
+			continue
+		}
+		merged = append(merged, diff)
+	}
+	all = merged
+
 	out := make([]FmtDiff, 0, len(all))
 	lastEnd := -1
 	for idx, diff := range all {
